@@ -51,6 +51,9 @@ CHECKS = {
  "C09": ("exploration", "three-way agreement monitor: random $verif kernel-contract programs (get/put/del/scan/event/resource use/nested calls/contract transfers/failures) over growing prior states on a gas-charging chain: pre-execution (no trace) -> signed transaction -> VerifyTx -> DoTx -> state delta == write set and declared outputs -> block replay; tamper oracle over schema-walk mutants of read set / write set / requests / fee / token outputs, re-signed",
          "Runtime oracle over ~1500 programs and ~700 tampered variants per quick run; held on what was explored; one nested-call rollback finding is recorded.",
          "Trusted: Node.PreExec mirrors Chain.PreExec call by call; kernel contracts stand in for wasm/native/EVM contracts (same sandbox, bridge, verification and commit paths).", "DESIGN.md §3 C09"),
+ "C10": ("exploration", "reference-model monitor + replay oracle on the real sandbox (XMCache): every program of <= 4 ops (get / put / del of 3 keys, 4 scans) x all 27 backing states exhaustively, random programs (<= 40 ops, 1-3 adjacent buckets + $transient, nil / empty / inverted / adjacent bounds, early stop, two open iterators, writes under an open iterator, Transfer, AddEvent, Flush, RWSet mid-execution) over an in-memory backing and over the real xmodel of simnode nodes (committed + pending $verif transactions: overwritten, deleted, re-created keys); each answer is compared with a 300-line statement model, the read / write set is audited (every influencing key with the version seen, final values, extras classified), and the same calls are re-run over XMReaderFromRWSet alone and must reproduce results and write set; a sample is also driven as a $verif contract through contract.Manager and must match the direct drive",
+         "Exhaustive over the <= 4-op x 27-state box (835k programs; <= 5 ops thorough, 22M), sampled beyond; 1.0M programs per quick run.",
+         "Trusted: the statement model in cmd/c10/model.go; one tolerance: for a key written while an iterator is open the state at Select time or any later one is accepted. Live keys with empty values cannot exist in the real xmodel (verifyOutputs refuses them).", "DESIGN.md §3 C10"),
  "C11": ("exploration", "reference-model monitor over exhaustively enumerated small universes: the real IdentifyAccount / CheckContractMethodPerm against a decimal-exact model written from the statement (strict and liberal readings; only what both demand is enforced) for every rule assignment x signer list of the boxes (threshold weights, key sets, nested accounts to depth 2 incl. cycles, 27 confusable URI forms, every order of every subset for decimal weights, monotonicity pairs); end to end: every subset of a 13-entry signer menu x every operation touching the XCAccount / XCContract / XCContract2Account buckets (SetAccountAcl, SetMethodAcl, raw bucket writes through $verif, spending, guarded method call) through State.VerifyTx in five phases (pending / confirmed rule changes) against the rules confirmed at the tip",
          "Exhaustive over the enumerated boxes (42M evaluations quick, 1G thorough; 72k / 1M verified transactions), nothing sampled; the boxes are small universes, not all rules.",
          "Trusted: the ~450-line statement model (cmd/c11/model.go), weights compared as the decimals the rule's author wrote; stub AclManager in part A; signature verification itself belongs to C07. Unspecified by the statement and only counted: re-pointing an existing contract->account mapping, the initiator's own signature, malformed URIs.", "DESIGN.md §3 C11"),
@@ -87,7 +90,7 @@ def main():
             "guard": "verif",
             "enable": "go build -tags verif (bin/check builds every check binary from /repo's working tree through a replace directive)",
             "baseline_off_cmd": BASE,
-            "source_commits": ["46bedf2", "830ccff"],
+            "source_commits": ["46bedf2", "830ccff", "fd85b8b"],
             "add_only": True,
         },
         "engines": [{"name": "harness", "path": "/verif/harness", "serves_properties": [c["property_id"] for c in checks],
